@@ -19,11 +19,22 @@ func HarnessRevalidation() {
 		etag = "\"" + symStringN(1) + "\""
 		h1["Etag"] = []string{etag}
 	}
-	hasLM := symChoice(2) == 1
+	lmForm := symChoice(4)
+	hasLM := lmForm != 0
 	var lm time.Time
-	if hasLM {
+	switch lmForm {
+	case 1:
 		lm = symTime()
-		h1["Last-Modified"] = []string{vTimeString(lm)}
+		h1["Last-Modified"] = []string{vTimeString(lm)} // the usual IMF-fixdate form, any instant
+	case 2:
+		// the two obsolete forms every HTTP recipient must accept (RFC 9110 section 5.6.7)
+		lm = vTimeOf(1577836800 * 1000000000) // 2020-01-01T00:00:00Z
+		h1["Last-Modified"] = []string{"Wednesday, 01-Jan-20 00:00:00 GMT"}
+		vReach("last-modified-rfc850")
+	case 3:
+		lm = vTimeOf(1577836800 * 1000000000) // 2020-01-01T00:00:00Z
+		h1["Last-Modified"] = []string{"Wed Jan  1 00:00:00 2020"}
+		vReach("last-modified-asctime")
 	}
 	// origin: v1, then the answer to the revalidation
 	second := symChoice(3)
